@@ -32,6 +32,68 @@ theorem Grow.addDefined (st : St) (d : DefinedType) : Grow st.types (Elab.addDef
     exact getElem?_append_lt' _ _ _ _ h
   · simp [Elab.addDefined, Types.size]
 
+/-! ### resource leaves, with the fuel of `resolve_resource` explicit
+
+`HL` (C08) is stated for the fuel `resLeaf` itself uses; an alias of an alias needs the stronger
+"with any fuel ≥ the number of resources". -/
+
+/-- resource id `r` resolves to the root `l.idx` (which is the leaf `l`) in every later arena, with
+any fuel `≥` the number of resources of `T` -/
+def HR (T : Types) (r : Nat) (l : Res) : Prop :=
+  ∀ T' F, Ext [] [] T T' → T.resources.length ≤ F →
+    T'.resolveResource F r = some l.idx ∧ ∃ x, T'.resources[l.idx]? = some x ∧ l = ⟨T'.uid, l.idx, x.name⟩
+
+theorem HR.mono {T T1 : Types} {r : Nat} {l : Res} (h : HR T r l) (hg : Grow T T1) : HR T1 r l :=
+  fun T' F he hF => h T' F (hg.ext.trans he) (by have := hg.ext.resources_len; omega)
+
+theorem HR.toHL {T : Types} {r : Nat} {l : Res} (h : HR T r l) : HL [] [] T r l := by
+  intro T' he
+  obtain ⟨h1, x, hx, hl⟩ := h T' (T'.resources.length + 1) he (by have := he.resources_len; omega)
+  simp only [Types.resLeaf, h1, hx]
+  rw [hl]
+
+theorem Grow.addResource (st : St) (x : Resource) : Grow st.types (Elab.addResource st x).1.types := by
+  refine ⟨⟨rfl, fun _ _ h => h, fun _ _ h => h, fun _ _ h => h, ?_,
+    fun _ x _ h => ⟨x, h, rfl⟩, fun _ x _ h => ⟨x, h, rfl, rfl⟩⟩, ?_⟩
+  · intro i y h
+    exact ⟨y, getElem?_append_lt' _ _ _ _ h, rfl, rfl⟩
+  · simp [Elab.addResource, Types.size]
+
+/-- a freshly pushed root resource -/
+theorem HR_root (st : St) (n : Str) :
+    HR (Elab.addResource st { name := n, alias := none }).1.types st.types.resources.length
+      ⟨st.types.uid, st.types.resources.length, n⟩ := by
+  intro T' F he hF
+  obtain ⟨y, hy, hyn, hya⟩ := he.resources st.types.resources.length { name := n, alias := none }
+    (by simp [Elab.addResource])
+  have hya' : y.alias = none := by simpa using hya
+  have hlen : (Elab.addResource st { name := n, alias := none }).1.types.resources.length =
+      st.types.resources.length + 1 := by simp [Elab.addResource]
+  obtain ⟨F', rfl⟩ : ∃ F', F = F' + 1 := ⟨F - 1, by omega⟩
+  refine ⟨by simp [Types.resolveResource, hy, hya'], y, hy, ?_⟩
+  have : T'.uid = st.types.uid := he.uid
+  simp [this, hyn]
+
+/-- a freshly pushed alias of a resource that resolves to `l` -/
+theorem HR_alias {st : St} {n : Str} {r : Nat} {o : Option Nat} {l : Res} (h : HR st.types r l) :
+    HR (Elab.addResource st { name := n, alias := some { owner := o, source := r } }).1.types
+      st.types.resources.length l := by
+  intro T' F he hF
+  obtain ⟨y, hy, _, hya⟩ := he.resources st.types.resources.length
+    { name := n, alias := some { owner := o, source := r } } (by simp [Elab.addResource])
+  have hlen : (Elab.addResource st { name := n, alias := some { owner := o, source := r } }).1.types.resources.length =
+      st.types.resources.length + 1 := by simp [Elab.addResource]
+  obtain ⟨F', rfl⟩ : ∃ F', F = F' + 1 := ⟨F - 1, by omega⟩
+  obtain ⟨h1, hx⟩ := h T' F' ((Grow.addResource st _).ext.trans he) (by omega)
+  refine ⟨?_, hx⟩
+  cases hya' : y.alias with
+  | none => rw [hya'] at hya; simp at hya
+  | some a =>
+    rw [hya'] at hya
+    simp only [Option.map_some, Option.some.injEq] at hya
+    simp only [Types.resolveResource, hy, hya', hya]
+    exact h1
+
 section
 variable (ρ : Nat → Res)
 
@@ -39,7 +101,7 @@ variable (ρ : Nat → Res)
 def SimB (T : Types) : Option Bound → Option Bind → Prop
   | none, none => True
   | some (.ty (.value v)), some (.val t) => HV [] [] T (vb T) v (renT ρ t)
-  | some (.ty (.resource r)), some (.res q) => HL [] [] T r (ρ q.idx)
+  | some (.ty (.resource r)), some (.res q) => HR T r (ρ q.idx)
   | _, _ => False
 
 /-- the elaboration scope and the denotation scope agree -/
@@ -52,7 +114,7 @@ theorem SimB.mono {T T' : Types} (hg : Grow T T') : ∀ {a : Option Bound} {b : 
     SimB ρ T a b → SimB ρ T' a b
   | none, none, _ => trivial
   | some (.ty (.value _)), some (.val _), h => HV.mono h hg.ext (by have := hg.size; unfold vb; omega)
-  | some (.ty (.resource _)), some (.res _), h => HL.mono h hg.ext
+  | some (.ty (.resource _)), some (.res _), h => HR.mono h hg
   | none, some _, h => h.elim
   | some (.ty (.value _)), none, h => h.elim
   | some (.ty (.value _)), some (.res _), h => h.elim
